@@ -541,7 +541,25 @@ class EmptyLit(ast.NodeTransformer):
             return ast.List(elts=[], ctx=ast.Load()) if n.func.id == 'list' else ast.Dict(keys=[], values=[])
         return n
 
-T = {'negcmp': NegCompare, 'splitisi': SplitIsinstance, 'splitwith': SplitWith, 'mergewith': MergeWith, 'tern2if': TernaryToIf, 'if2tern': IfToTernary, 'kwtimeout': KwTimeout, 'postimeout': PosTimeout, 'earlycont': EarlyContinue, 'rettern': RetTern, 'retif': RetIf, 'demorgan': DeMorgan, 'whilecond': WhileCond, 'swapeq': SwapEq, 'splitin': SplitIn, 'dictlit': DictLit, 'unchain': Unchain, 'untuple': Untuple, 'orassign': OrAssign, 'splitexcept': SplitExcept, 'retnone': RetNone, 'elseremove': ElseRemove, 'elseadd': ElseAdd, 'comp2loop': Comp2Loop, 'whiletrue': WhileTrue, 'elsepass': ElsePass, 'testtemp': TestTemp, 'with2acq': With2Acq, 'commute': Commute, 'ret2tern': Ret2Tern, 'nowait': NoWait, 'raisecall': RaiseCall, 'raisebare': RaiseBare, 'awith2acq': AWith2Acq, 'tup2list': Tup2List, 'dropasname': DropAsName, 'addasname': AddAsName, 'maxsizepos': MaxsizePos, 'maxsizekw': MaxsizeKw, 'daemonattr': DaemonAttr, 'yf2loop': YieldFromLoop, 'loop2yf': LoopYieldFrom, 'argslist': ArgsList, 'suppress': Suppress, 'emptyctor': EmptyCtor, 'emptylit': EmptyLit}
+class WaitForKw(ast.NodeTransformer):
+    """asyncio.wait_for(x, t) -> asyncio.wait_for(x, timeout=t)"""
+    def visit_Call(self, n):
+        self.generic_visit(n)
+        if isinstance(n.func, ast.Attribute) and n.func.attr == 'wait_for' and len(n.args) == 2 and not n.keywords:
+            count[0] += 1
+            return ast.Call(func=n.func, args=[n.args[0]], keywords=[ast.keyword(arg='timeout', value=n.args[1])])
+        return n
+
+
+class WaitForPos(ast.NodeTransformer):
+    def visit_Call(self, n):
+        self.generic_visit(n)
+        if isinstance(n.func, ast.Attribute) and n.func.attr == 'wait_for' and len(n.args) == 1 and len(n.keywords) == 1 and n.keywords[0].arg == 'timeout':
+            count[0] += 1
+            return ast.Call(func=n.func, args=[n.args[0], n.keywords[0].value], keywords=[])
+        return n
+
+T = {'negcmp': NegCompare, 'splitisi': SplitIsinstance, 'splitwith': SplitWith, 'mergewith': MergeWith, 'tern2if': TernaryToIf, 'if2tern': IfToTernary, 'kwtimeout': KwTimeout, 'postimeout': PosTimeout, 'earlycont': EarlyContinue, 'rettern': RetTern, 'retif': RetIf, 'demorgan': DeMorgan, 'whilecond': WhileCond, 'swapeq': SwapEq, 'splitin': SplitIn, 'dictlit': DictLit, 'unchain': Unchain, 'untuple': Untuple, 'orassign': OrAssign, 'splitexcept': SplitExcept, 'retnone': RetNone, 'elseremove': ElseRemove, 'elseadd': ElseAdd, 'comp2loop': Comp2Loop, 'whiletrue': WhileTrue, 'elsepass': ElsePass, 'testtemp': TestTemp, 'with2acq': With2Acq, 'commute': Commute, 'ret2tern': Ret2Tern, 'nowait': NoWait, 'raisecall': RaiseCall, 'raisebare': RaiseBare, 'awith2acq': AWith2Acq, 'tup2list': Tup2List, 'dropasname': DropAsName, 'addasname': AddAsName, 'maxsizepos': MaxsizePos, 'maxsizekw': MaxsizeKw, 'daemonattr': DaemonAttr, 'yf2loop': YieldFromLoop, 'loop2yf': LoopYieldFrom, 'argslist': ArgsList, 'suppress': Suppress, 'emptyctor': EmptyCtor, 'emptylit': EmptyLit, 'waitforkw': WaitForKw, 'waitforpos': WaitForPos}
 
 
 def apply(name):
